@@ -5,6 +5,7 @@ import SeqVerif.Model.BulkMetaCodec
 import SeqVerif.Model.BulkCompose
 import SeqVerif.Model.BulkResponse
 import SeqVerif.Model.BulkConfig
+import SeqVerif.Model.BulkHandover
 import SeqVerif.Model.CollectorLemmas
 import SeqVerif.Extracted.C10
 /-!
@@ -295,6 +296,22 @@ example : ruleTime (some (1790000000000000000 - 3600000000000)) 1790000000000000
     ruleTime (some (1790000000000000000 + 60000000000)) 1790000000000000000 0 0 = 1790000000000000000 ∧
     ruleTime (some 1790000000000000000) 1790000000000000000 0 0 = 1790000000000000000 := by decide
 
+/-- **C10 (hand-over to the store in single-binary mode).**  The store keeps the `Metas` buffer of a bulk after
+`Bulk` has returned, until an index worker reads it.  With a fresh clone handed over per call (what
+`inMemoryAPIClient.Bulk` does, `c10_x_in_memory_glue`), for every interleaving of accepted bulks and worker steps
+every worker reads exactly the metas its task was accepted with - so what `c10_stored_exactly` hands to
+`StoreDocuments` is what gets indexed.  A pooled buffer released on return does not have this property
+(`SV.Handover.pooled_counterexample`). -/
+theorem c10_handover_clone_safe (evs : List SV.Handover.Ev) :
+    ∀ o, o ∈ (SV.Handover.run SV.Handover.stepClone evs).out → o.2 = some o.1 :=
+  SV.Handover.clone_safe evs
+
+/-- two bulks accepted before a worker runs, buffer released on return: the first task is indexed with the second
+bulk's metas -/
+theorem c10_handover_pooled_counterexample :
+    (SV.Handover.run SV.Handover.stepPooled [.accept 1, .accept 2, .work, .work]).out = [(1, some 2), (2, some 2)] :=
+  SV.Handover.pooled_counterexample
+
 /-! ## time rule -/
 
 open SV.Extracted.C10 in
@@ -498,6 +515,11 @@ theorem c10_x_set_defaults :
       "c.Bulk.MaxInflightBulks == 0: c.Bulk.MaxInflightBulks = consts.IngestorMaxInflightBulks"] ∧
     newIngestorSteps = ["config.setDefaults()", "bulk.NewIngestor(config.Bulk, bulkClient)"] :=
   ⟨rfl, rfl⟩
+
+/-- the in-memory client clones `Metas` and passes the request on; no defer, no pool -/
+theorem c10_x_in_memory_glue :
+    inMemoryBulk = ["in.Metas = slices.Clone(in.Metas)", "return i.store.GrpcV1().Bulk(ctx, in)"] ∧
+    inMemoryBulkReleasesOrPools = false := ⟨rfl, rfl⟩
 
 /-! ## Non-vacuity -/
 
